@@ -173,6 +173,32 @@ def trait_method(run, f, d, fn, trait, self_ty):
         run.require(not extra, "O16.1", "no-extra-calls:%s" % key, "%s also calls %s" % (key, extra), "no other call", loc=loc)
         run.sample({"rule": "O16.1", "method": key, "forwards_to": K, "args": [show(a) for a in args]}) if m in ("tell_with_timeout", "kill") and run.cur_config == "default" else None
         return
+    if m in ("clone_boxed", "downgrade") and ret[0] == "call" and (fn_path(tr.call_term(ret[1])) or "") in ("core::convert::Into::into", "core::convert::From::from"):
+        # `self.into()` / `ActorRef::downgrade(self).into()` through the crate's own `From<..> for Box<dyn Trait>`: accepted when
+        # that impl is the *direct* one (Box::new(arg.clone()) / Box::new(arg), rule O16.4 - not one that delegates back here)
+        arg = strip_refs(tr.norm(tr.call_args(ret[1])[0]))
+        K = prefix + "downgrade"
+        if m == "clone_boxed":
+            ok_arg = arg == ("param", 1)
+        else:
+            ok_arg = arg[0] == "call" and arg[2] == K and strip_refs(tr.norm(tr.call_args(arg[1])[0])) == ("param", 1)
+        a0 = tr.call_term(ret[1])["args"][0]
+        pl0 = a0.get("move") or a0.get("copy")
+        src_s = f.ty(body.locals[pl0["l"]]["ty"]).s if pl0 and not pl0["p"] else None
+        out_s = f.ty(fn["output"]).s
+        impls = [dd for dd, ff in f.fns.items() if ff.get("impl_trait") == "std::convert::From" and ff.get("name") == "from" and ff.get("has_body") and ff["inputs"]
+                 and f.ty(ff["inputs"][0]).s == src_s and f.ty(ff["output"]).s == out_s]
+        direct = False
+        if len(impls) == 1:
+            ib = f.body(impls[0])
+            itr = tracer_of(ib)
+            iret, _ = peel(itr, itr.norm(itr.local(0)))
+            direct = is_box_new(itr, iret)
+        extra = [callee(b.term) for b in calls if b.idx != ret[1] and callee(b.term) != K]
+        run.require(ok_arg and direct and not extra, "O16.2", "%s:%s" % (m, key), "%s returns %s through into(): argument %s, direct From impl for (%s -> %s): %s, other calls %s" % (key, show(ret), show(arg), src_s, out_s, impls if direct else "none", extra),
+                    "%s via the crate's direct From<%s> for %s" % (m, src_s, out_s), loc=loc)
+        run.ok("O16.2", "no-extra-calls:%s" % key, "no other call", loc=loc)
+        return
     if m == "clone_boxed":
         core = ret
         okc = is_box_new(tr, core)
